@@ -345,6 +345,10 @@ func Enumerate(tier string, seed int64) []*Schema {
 		st("Inner", fd("x", P("int32")), fd("s", P("string"))),
 		st("Outer", fd("a", R("Inner")), fd("b", A(R("Inner"))), fd("z", P("uint8"))),
 	}}, "nested-records")
+	// 5b. a record that ends in an empty record (its decoder's last call reads nothing), and an empty message
+	// (five bytes on the wire: length prefix and terminator) alone, in a struct and in a message
+	add(&Schema{Name: "stail", Records: []*Record{st("E1"), st("Tl", fd("id", P("int32")), fd("name", P("string")), fd("end", R("E1")))}}, "empty", "struct")
+	add(&Schema{Name: "mempty", Records: []*Record{msg("Em"), st("Hm", fd("e", R("Em")), fd("after", P("uint32"))), msg("Mo", fd("e", R("Em")), fd("z", P("uint16")))}}, "empty", "message")
 	// 6. empty and readonly structs
 	add(&Schema{Name: "sempty", Records: []*Record{st("E0"), {Kind: Struct, Name: "Ro", ReadOnly: true, Fields: []Field{fd("a", P("int64")), fd("b", P("string"))}},
 		st("Holder", fd("e", R("E0")), fd("es", A(R("E0"))), fd("r", R("Ro")))}}, "empty", "readonly")
